@@ -67,7 +67,7 @@ proof fn vacuity_pre(i: v1::Instance) requires dv_ids_distinct(i.decision_variab
     return dict(
         min_items=9,
         trusted_base=common.TRUSTED_COMMON + common.T4_COLLECTIONS + [
-            'T5 ASSUMED callee contracts: Quadratic::used_decision_variable_ids, Polynomial::used_decision_variable_ids (iterator chains), Function::zero',
+            'T5 ASSUMED callee contract: Function::zero (proved in C02). Quadratic / Polynomial::used_decision_variable_ids are verified units of this check (R31 pipelines)',
             'T4: iter().map(C).collect::<BTreeSet>() over an annotated closure; BTreeSet::{is_subset, extend}; HashSet::insert',
         ],
         assumptions=[],
